@@ -151,7 +151,7 @@ def extract_reuse_info(text: str) -> ReuseInfo:
     copyright_matches = set()
     for expression in spdx_tags.pop("spdx_expressions"):
         try:
-            expressions.add(_LICENSING.parse(expression))
+            parsed = _LICENSING.parse(expression)
         except (ExpressionError, ParseError):
             _LOGGER.error(
                 _("Could not parse '{expression}'").format(
@@ -159,6 +159,10 @@ def extract_reuse_info(text: str) -> ReuseInfo:
                 )
             )
             raise
+        # A tag without a value ('SPDX-License-Identifier: ') declares nothing:
+        # the parser returns None for it, which is not an expression.
+        if parsed is not None:
+            expressions.add(parsed)
     for line in text.splitlines():
         for pattern in _COPYRIGHT_PATTERNS:
             match = pattern.search(line)
